@@ -88,7 +88,25 @@ func specListString(l []specStop) string {
 }
 
 // c14Feed builds feed number k for symbol sym.
+// value schemes: 0 every value unique per feed; 1 all optional values absent; 2 times constant
+// across feeds, track unique; 3 track constant, times unique; 4 everything constant
 func c14Feed(k, sym int, absentValues bool) (*gtfs.Realtime, []specStop) {
+	scheme := 0
+	if absentValues {
+		scheme = 1
+	}
+	return c14FeedScheme(k, sym, scheme)
+}
+
+func c14FeedScheme(k, sym int, scheme int) (*gtfs.Realtime, []specStop) {
+	absentValues := scheme == 1
+	kt, ktr := k, k // feed index used for times / for tracks
+	if scheme == 2 || scheme == 4 {
+		kt = 0
+	}
+	if scheme == 3 || scheme == 4 {
+		ktr = 0
+	}
 	t := c14FeedTime(k)
 	f := &gtfs.Realtime{CreatedAt: t}
 	if sym == 0 {
@@ -109,9 +127,13 @@ func c14Feed(k, sym int, absentValues bool) (*gtfs.Realtime, []specStop) {
 		u := gtfs.StopTimeUpdate{StopID: &s}
 		sp := specStop{stop: s, lastObs: t}
 		if !absentValues {
-			a := time.Unix(int64(c14T0+60*k+1000+10*j), 0).UTC()
-			d := time.Unix(int64(c14T0+60*k+2000+10*j), 0).UTC()
-			tr := fmt.Sprintf("trk%d.%d", k, j)
+			// keyed by stop, not by position, so that the same stop keeps its values when the
+			// list shrinks from the front
+			sj := int(s[0] - 'A')
+			_ = j
+			a := time.Unix(int64(c14T0+60*kt+1000+10*sj), 0).UTC()
+			d := time.Unix(int64(c14T0+60*kt+2000+10*sj), 0).UTC()
+			tr := fmt.Sprintf("trk%d.%d", ktr, sj)
 			u.Arrival = &gtfs.StopTimeEvent{Time: &a}
 			u.Departure = &gtfs.StopTimeEvent{Time: &d}
 			u.NyctTrack = &tr
@@ -301,17 +323,21 @@ func c14Shallow(maxLen int) Harness {
 		for k := 0; k < n; k++ {
 			syms = append(syms, c.Free(fmt.Sprintf("feed[%d]", k), c14Symbols))
 		}
-		absent := c.Choose("optional_values_absent", 2) == 1
+		scheme := c.Choose("value_scheme", 5)
+		absent := scheme == 1
 		var names []string
 		for _, s := range syms {
 			names = append(names, symName(s))
 		}
 		hist := strings.Join(names, " ")
-		c.Input(hash64(hist+fmt.Sprint(absent)), n >= 2, func() string { return fmt.Sprintf("history: %s (optional values absent: %v)", hist, absent) })
+		c.Input(hash64(hist+fmt.Sprint(scheme)), n >= 2, func() string {
+			return fmt.Sprintf("history: %s (value scheme %d: 0 unique per feed, 1 optional values absent, 2 times constant/track changes, 3 track constant/times change, 4 all constant)", hist, scheme)
+		})
+		_ = absent
 		var feeds []*gtfs.Realtime
 		var mirrors [][]specStop
 		for k, s := range syms {
-			f, m := c14Feed(k, s, absent)
+			f, m := c14FeedScheme(k, s, scheme)
 			feeds = append(feeds, f)
 			mirrors = append(mirrors, m)
 		}
@@ -467,7 +493,7 @@ func init() {
 	register(&Check{
 		ID:    "C14",
 		Level: "model_checking",
-		Rule: "one trip; feed symbols {trip omitted, unassigned [AB], assigned x every list over {A,B,C} of length <= 3 (40 lists)} = 42; ALL histories of <= 3 feeds (thorough <= 4), each with feed-unique values and with all optional values absent (1 deviation), journal built for every prefix; plus explicit-state BFS to the fixpoint over histories starting with an assigning feed, states canonicalised to (stop id, marked?)* + trip-marked flag; " +
+		Rule: "one trip; feed symbols {trip omitted, unassigned [AB], assigned x every list over {A,B,C} of length <= 3 (40 lists)} = 42; ALL histories of <= 3 feeds (thorough <= 4), each under 5 value schemes (unique per feed; optional values absent; times constant while the track changes; track constant while times change; all constant), journal built for every prefix; plus explicit-state BFS to the fixpoint over histories starting with an assigning feed, states canonicalised to (stop id, marked?)* + trip-marked flag; " +
 			"non-trivial = distinct histories of >= 2 feeds; oracle = nondeterministic specification automaton (set of admissible lists, refined by each observation)",
 		Assumptions: []string{"when the update's first stop is not in the list, or the update is empty, any prefix of the old list may be kept (the statement only constrains the case where the first stop is present)", "BFS state merging is sound because the journal code branches only on stop ids, nil-ness of marks and the assigned/active flags"},
 		Scenarios: func(tier string) []*Scenario {
